@@ -240,6 +240,14 @@ def run(ctx, lean_ok):
 
     if F is not None:
         F.close()
+    # floors: the run must actually have reached the regimes named in the quantifier
+    def tot(sub):
+        return sum(v for k, v in ctx.hist.items() if sub in k)
+    floors = {'near-critical': 20, 'hot-low-P': 20, ':real3': 10, 'A<B+B2': 10, ':zero:': 30, ':const:': 30, ':groups:': 30}
+    for sub, need in floors.items():
+        ctx.oblige('coverage floor: at least %d states of class %r (got %d)' % (need, sub, tot(sub)), tot(sub) >= need)
+    ctx.oblige('coverage floor: finite-difference consistency tests actually ran (%r)' % nfd,
+               nfd['dlnphi_dlnP'] >= 50 and nfd['gibbs_duhem'] >= 20 and nfd['phi_to_one'] >= 30)
     ctx.notes.append('worst exact relative residual of a reported root: %.3g' % worst_res)
     ctx.notes.append('finite-difference tests run (labelled tests, not theorems): %r' % nfd)
 
